@@ -102,6 +102,38 @@ CLAIMED = {
    note=COMMON_NOTE + "multiprocessing.Pool returns each job's own result. Known finding F13 (template counter copied) in known_findings.json.",
    technique="Lean 4 proof (permutation invariance of result application) + correspondence",
    design="5/C19"),
+ "C06": dict(
+   text="Lean theorems with the optimizer as an ARBITRARY oracle (any trial sequence, any final vector): the value returned by the locally-optimizing wrapper is the base fitness of the "
+        "individual with the constants it holds afterwards, it no longer requests optimization, parameter count preserved, untouched when it did not need optimization, exact count of base "
+        "invocations (reported_is_base, no_longer_needs, param_count, untouched, call_count); re-fitting keeps the best by NaN-aware < and is never worse than the first fit (refit_not_worse). "
+        "Tie: the real wrapper with real scipy (all 8 listed methods) observed from outside vs the model + oracle on the real objects.",
+   note=COMMON_NOTE + "scipy is an oracle; ScipyOptimizer's TypeError fallback path is exercised by the harness, not modelled separately.",
+   technique="Lean 4 proof parametric in the optimizer + correspondence with real scipy runs",
+   design="5/C06"),
+ "C09": dict(
+   text="Lean theorems composing C08/C10/C11/C05: age-fitness selection and deterministic crowding never make the best non-NaN key worse (af_selection_keeps_best, crowding_keeps_best), hence one "
+        "AgeFitnessEA / GeneralizedCrowdingEA step, any number of steps, and any interleaving of migrations and per-island steps of a serial archipelago (runs, archipelago); an unfiltered hall of "
+        "fame's best is never worse than the best ever offered (hof, hof_updates); determinism is necessary (nondeterministic_counterexample). "
+        "Tie: the correspondence checks of C05/C08/C10/C11 + end-to-end oracle on real islands and archipelagos.",
+   note=COMMON_NOTE + "With a similarity filter the hall-of-fame claim is false (machine-checked counterexample) and not claimed.",
+   technique="Lean 4 proof (composition of proved selection/migration/hall-of-fame theorems) + end-to-end oracle",
+   design="5/C09"),
+ "C18": dict(
+   text="Lean theorems over the AGraph object as a state machine with the simplifier as a parameter: the cache invariant is preserved by every legal operation, and after any legal history every "
+        "refreshed observation equals that of a freshly constructed object with the same command array, setting and constants (obs_eq_fresh*, inv_run*), writes clear the fitness, copies are "
+        "equal and independent. Tie: operation sequences on real AGraphs (reduce and CAS) vs the model instantiated with the Lean models of reduce_stack and the CAS, state by state; oracle "
+        "against fresh objects on all observations.",
+   note=COMMON_NOTE + "setConsts is legal only with the current parameter count; the never-assigned empty AGraph is outside the statement (machine-checked counterexample for arbitrary simplifiers).",
+   technique="Lean 4 proof (invariant + refinement to the fresh object) + state-by-state correspondence",
+   design="5/C18"),
+ "C20": dict(
+   text="Lean theorems over an exact-rational model of the Savitzky-Golay/Gram filter and _calculate_partials with constants REGENERATED from the call site: the centred weight column is exact on "
+        "cubics for every centre (weights, cubic_exact), interior outputs use that column (savgol_interior, savgol_cubic), retained rows = rows minus first 3/last 4 of each NaN-separated "
+        "segment, for any number of segments, each segment's output depends on its own samples only (retained_rows, segments_independent, partials_cubic); implicit fitness rows lie in [-1,1], "
+        "mae in [0,1] or non-finite, invariant under non-zero scaling, zero on invariants (fitness_range, mae_*). Tie: impulse responses and random trajectories of the real code vs exact rationals.",
+   note=COMMON_NOTE + "binary64 evaluation of the weights/convolution validated to 1e-9.",
+   technique="Lean 4 proof (kernel-checked rational identities lifted by linearity) + correspondence",
+   design="5/C20"),
 }
 
 REASONS = {p: "check not built yet in this round (planned, see DESIGN.md section 11)" for p in PROPS}
